@@ -8,8 +8,10 @@
                                          arguments (instructions by id) and the projected real post-state of
                                          the written register: listing, used, len, and A == B
      Obs       {A, B, eq, ...}           the public observations of both registers: to_instructions,
-                                         into_instructions, get_used_qubits, to_quil, len, ==, the rebuild
-                                         round trip, RESET frame matching, (C08) the determinism verdict
+                                         into_instructions, get_used_qubits, len, ==, the rebuild round trip,
+                                         RESET frame matching, whether to_quil lists the instructions in
+                                         listing order, (C08) the determinism verdict of three builds
+     ObsText   {r, text}                 to_quil of one register (binding only)
      ObsConcat {a, b, c, ...}            real operands and real result of the concatenation just performed
 
    Strict = TRUE : every operation must be explained by the model: Apply gives exactly the logged post-state
@@ -82,7 +84,7 @@ TMut == /\ l <= Len(Rec) /\ Rec[l].ev \in MutEvents /\ l' = l + 1 /\ UNCHANGED s
 ObsReg(e, r) ==
   LET x == e[r]  p == regs[r]  L == SS(x.listing) IN
   /\ ("C08" \in Judge => /\ ListingOrderLaw(L, p.log)
-                         /\ x.text = JoinLines(L)
+                         /\ x.text_ordered
                          /\ ("det" \in DOMAIN e => e.det))
   /\ ("C09" \in Judge => /\ x.into = x.listing
                          /\ (p.excl = {} => x.rebuilt_eq)
@@ -97,23 +99,27 @@ TObs == /\ l <= Len(Rec) /\ Rec[l].ev = "Obs" /\ l' = l + 1 /\ UNCHANGED <<regs,
            /\ ("C10" \in Judge =>
                  ((e["A"].listing = e["B"].listing /\ regs["A"].excl = {} /\ regs["B"].excl = {})
                      => (e.eq /\ e.reset_frames_same)))
-           \* binding only (never a verdict: the same demands are made of the preceding operation's post-state)
-           /\ (Strict /\ Judge = {} => \A r \in Regs : e[r].listing = Ids(Listing(regs[r])))
 
-\* C11 on the recorded real operands and result (relational: the model state is not consulted)
+\* the serialized text of one register: binding only (the exact layout of the text is no property's observable)
+TObsText == /\ l <= Len(Rec) /\ Rec[l].ev = "ObsText" /\ l' = l + 1 /\ UNCHANGED <<regs, sym>>
+            /\ (Strict => Rec[l].text = ToQuil(regs[Rec[l].r]))
+
+\* C11 (and the order part, C08) on the recorded real operands and result (relational: the model state is not
+\* consulted)
 TObsConcat ==
         /\ l <= Len(Rec) /\ Rec[l].ev = "ObsConcat" /\ l' = l + 1 /\ UNCHANGED <<regs, sym>>
         /\ LET e == Rec[l]
                a == ProgOfListing(SS(e.a.listing), Range(e.a.used))
                b == ProgOfListing(SS(e.b.listing), Range(e.b.used))
                c == ProgOfListing(SS(e.c.listing), Range(e.c.used))
-           IN "C11" \in Judge =>
-                /\ ConcatContentLawOf(a, b, c)
-                /\ (~PullApart(a, b) => ConcatUsedLawOf(a, b, c))
-                /\ e.plus_is_assign
-                /\ e.identity
+           IN /\ ("C11" \in Judge =>
+                   /\ ConcatKeyValueLawOf(a, b, c)
+                   /\ (~PullApart(a, b) => ConcatUsedLawOf(a, b, c))
+                   /\ e.plus_is_assign
+                   /\ e.identity)
+              /\ ("C08" \in Judge => ConcatOrderLawOf(a, b, c))
 
-TNext == TReset \/ TMut \/ TObs \/ TObsConcat
+TNext == TReset \/ TMut \/ TObs \/ TObsText \/ TObsConcat
 TSpec == TInit /\ [][TNext]_tvars
 
 Accepted == LET n == TLCGet("stats").diameter - 1 IN
